@@ -4,12 +4,15 @@ import (
 	"context"
 	"encoding/json"
 	"fmt"
+	"github.com/siglens/siglens/pkg/segment/reader/metrics/series"
+	"github.com/siglens/siglens/pkg/segment/structs"
 	"math"
 	"os"
 	"os/exec"
 	"path/filepath"
 	"sort"
 	"strings"
+	"sync"
 	"time"
 
 	jp "github.com/buger/jsonparser"
@@ -222,6 +225,81 @@ func workerMain(args []string) {
 		for i := 0; i < 4; i++ {
 			out = append(out, queryAll(h, "rotated2"))
 		}
+	case "walrun":
+		// ingest, rotate the BLOCK (the segment stays open), ingest more, let the WAL buffer reach its file, die
+		if e := ingest(h, 0); len(e) > 0 {
+			fail("ingest0: " + strings.Join(e, ";"))
+		}
+		if err := rotateBlocksOnly(); err != nil {
+			fail("rotate block: " + err.Error())
+		}
+		if e := ingest(h, 1); len(e) > 0 {
+			fail("ingest1: " + strings.Join(e, ";"))
+		}
+		if err := metrics.VerifFlushDpWalBuffers(); err != nil {
+			fail("wal flush: " + err.Error())
+		}
+		o := e2eObs{Stage: "walrun", Errs: metrics.VerifSegKeys()} // Errs carries the segment keys to the recover step
+		ob, _ := json.Marshal([]e2eObs{o})
+		_ = os.WriteFile(of, ob, 0o644)
+		os.Exit(0) // abrupt end: no flush, no rotation
+	case "walrecover":
+		// start-up replay of the datapoint WAL, then read every block file of the segments directly
+		var prev []e2eObs
+		pb, _ := os.ReadFile(of)
+		_ = json.Unmarshal(pb, &prev)
+		metrics.RecoverWALData()
+		o := e2eObs{Stage: "walrecover", Series: map[string][]pt{}}
+		qm := &structs.MetricsQueryProcessingMetrics{UpdateLock: &sync.Mutex{}}
+		if len(prev) == 1 {
+			for _, segKey := range prev[0].Errs {
+				tssr, err := series.InitTimeSeriesReader(segKey)
+				if err != nil {
+					o.Errs = append(o.Errs, "InitTimeSeriesReader: "+err.Error())
+					continue
+				}
+				for blk := uint16(0); blk < 8; blk++ {
+					if _, err := os.Stat(fmt.Sprintf("%s_%d.tso", segKey, blk)); err != nil {
+						continue
+					}
+					tsbr, err := tssr.InitReaderForBlock(blk, qm)
+					if err != nil {
+						o.Errs = append(o.Errs, fmt.Sprintf("block %d: %v", blk, err))
+						continue
+					}
+					for _, s := range h.Series {
+						th := metrics.GetTagsHolder()
+						for _, t := range s.Tags {
+							th.Insert(t.K, []byte(t.V), jp.String)
+						}
+						tsid, err := th.GetTSID([]byte(s.Name))
+						if err != nil {
+							continue
+						}
+						itr, found, err := tsbr.GetTimeSeriesIterator(tsid)
+						if err != nil {
+							o.Errs = append(o.Errs, fmt.Sprintf("block %d series %s: %v", blk, selector(s), err))
+							continue
+						}
+						if !found {
+							continue
+						}
+						for itr.Next() {
+							t, v := itr.At()
+							o.Series[selector(s)] = append(o.Series[selector(s)], pt{t, math.Float64bits(v)})
+						}
+					}
+				}
+				tssr.Close()
+			}
+		} else {
+			o.Errs = append(o.Errs, "no segment keys from the crashed run")
+		}
+		for k := range o.Series {
+			ps := o.Series[k]
+			sort.Slice(ps, func(a, b int) bool { return ps[a].T < ps[b].T })
+		}
+		out = append(out, o)
 	case "restart":
 		if err := query.PopulateMetricsMetadataForTheFile_TestOnly(meta.GetLocalMetricsMetaFName()); err != nil {
 			fail("populate: " + err.Error())
@@ -360,7 +438,62 @@ func expected(h e2eHistory, si int, maxPhase int) []pt {
 	return ps
 }
 
+// crash after a BLOCK rotation with datapoints of the next block only in the WAL: start-up replay must keep the
+// rotated block's datapoints and restore the logged ones (read from the block files; the selector path needs the
+// segment to be rotated first and is covered by the other stages)
+func walCrashPart(cfg vhlib.Config, sum *vhlib.Summary, r *vhlib.Rng) {
+	n := 3
+	if cfg.Thorough() {
+		n = 25
+	}
+	root := filepath.Join(cfg.Out, "walcrash")
+	for hi := 0; hi < n; hi++ {
+		h := genHistory(r.Fork(), false)
+		if hi%2 == 1 {
+			h = lateSeriesHistory(r.Fork())
+		}
+		dir := filepath.Join(root, fmt.Sprintf("h%d", hi))
+		_ = os.MkdirAll(dir, 0o755)
+		hf := filepath.Join(dir, "history.json")
+		hb, _ := json.Marshal(h)
+		_ = os.WriteFile(hf, hb, 0o644)
+		data := filepath.Join(dir, "data")
+		of := filepath.Join(dir, "wal.json")
+		if err := runWorker("walrun", data, hf, of); err != nil {
+			sum.Fail("metrics_worker_crash", fmt.Sprintf("worker walrun failed: %v", err), h)
+			continue
+		}
+		if err := runWorker("walrecover", data, hf, of); err != nil {
+			sum.Fail("metrics_worker_crash", fmt.Sprintf("worker walrecover failed: %v", err), h)
+			continue
+		}
+		var o []e2eObs
+		ob, _ := os.ReadFile(of)
+		_ = json.Unmarshal(ob, &o)
+		if len(o) != 1 || o[0].Stage == "harness" {
+			es := "no output"
+			if len(o) == 1 {
+				es = strings.Join(o[0].Errs, "; ")
+			}
+			sum.HarnessError("walcrash: " + es)
+			continue
+		}
+		for si := range h.Series {
+			want := expected(h, si, 1)
+			key := selector(h.Series[si])
+			got := o[0].Series[key]
+			sum.Eval(fmt.Sprintf("walcrash/%d/%d", hi, si), len(want) > 0)
+			sum.Count("walcrash/series")
+			if !ptsEq(want, got) {
+				sum.Fail("metrics_wal_recovery_after_block_rotation_mismatch", fmt.Sprintf("series %s: ingested %v (block rotated after phase 0, phase 1 in the WAL), on disk after start-up replay %v (errors %v)", key, want, got, o[0].Errs),
+					map[string]interface{}{"history": h, "series": si})
+			}
+		}
+	}
+}
+
 func e2ePart(cfg vhlib.Config, sum *vhlib.Summary, r *vhlib.Rng) {
+	walCrashPart(cfg, sum, r.Fork())
 	n := 8
 	if cfg.Thorough() {
 		n = 120
